@@ -76,6 +76,11 @@ DUNDER = {ast.Add: "__add__", ast.Sub: "__sub__", ast.Mult: "__mul__", ast.Div: 
 IDUNDER = {ast.Add: "__iadd__", ast.Sub: "__isub__", ast.Mult: "__imul__", ast.Div: "__itruediv__"}
 
 
+def _plain(v):
+    """a plain Python value (for which a TypeError / AttributeError is real behaviour, not a gap of the model)"""
+    return isinstance(v, (int, float, str, bytes, tuple, list, dict, set, frozenset, type(None), bool, range, Poly))
+
+
 class Interp:
     def __init__(self, repo=None, max_paths=64):
         self.repo = repo or REPO
@@ -210,7 +215,7 @@ class Interp:
             "None": None, "True": True, "False": False, "ValueError": "ValueError",
             "KeyError": "KeyError", "RuntimeError": "RuntimeError", "TypeError": "TypeError",
             "IndexError": "IndexError", "__name__": "mod", "reversed": lambda x: list(reversed(x)),
-            "sorted": I.b_sorted, "map": lambda f, *xs: [I.call(f, list(a), {}) for a in zip(*xs)],
+            "sorted": I.b_sorted, "divmod": I.b_divmod, "map": lambda f, *xs: [I.call(f, list(a), {}) for a in zip(*xs)],
         }
 
     # ------------------------------------------------------------------ builtins
@@ -225,6 +230,10 @@ class Interp:
             return x.slen()
         if isinstance(x, Obj):
             return self.call_method(x, "__len__", [], {})
+        if hasattr(x, "slen"):
+            return x.slen()
+        if not _plain(x):
+            raise Unsupported("len() of %s" % type(x).__name__)
         raise PyRaise("TypeError", "object of type %s has no len()" % type(x).__name__)
 
     def b_range(self, *a):
@@ -332,6 +341,12 @@ class Interp:
             return T.mk_abs(x)
         return abs(x)
 
+    def b_divmod(self, a, b):
+        if isinstance(a, int) and isinstance(b, int):
+            return divmod(a, b)
+        a, b = N.to_scalar(a), N.to_scalar(b)
+        return (T.mk_floordiv(P(a), P(b)), T.mk_mod(P(a), P(b)))
+
     def b_max(self, *a):
         if len(a) == 1:
             a = list(a[0])
@@ -408,6 +423,8 @@ class Interp:
     def b_list(self, xs=()):
         if isinstance(xs, (SList, SRange)):
             return xs
+        if hasattr(xs, "as_slist") and not isinstance(xs, (list, tuple)):
+            return xs.as_slist()
         if isinstance(xs, Arr):
             return SList(xs.slen(), lambda i: xs[i])
         return list(xs)
@@ -541,7 +558,16 @@ class Interp:
                 return None
             raise Unsupported("call of opaque %s" % f.name)
         if callable(f):
-            return f(*args, **kwargs)
+            try:
+                return f(*args, **kwargs)
+            except TypeError as e:
+                msg = str(e)
+                if "unexpected keyword argument" in msg or "positional argument" in msg or "required positional" in msg:
+                    # the MODEL of a library function does not take this calling form: a limit of the checker
+                    raise Unsupported("calling form of %s: %s" % (getattr(f, "__qualname__", f), msg))
+                raise
+        if not _plain(f):
+            raise Unsupported("call of %s" % type(f).__name__)
         raise PyRaise("TypeError", "%r is not callable" % (f,))
 
     def instantiate(self, ci, args, kwargs):
@@ -676,6 +702,8 @@ class Interp:
                     raise Unsupported("numblocks of an array without a chunk description")
                 return v.chunks.numblocks(v)
             if name == "chunks":
+                if v.chunks is not None and hasattr(v.chunks, "chunk_sizes"):
+                    return v.chunks.chunk_sizes(v)
                 raise Unsupported("explicit chunk sizes")
             if name == "to_delayed":
                 return lambda: ToDelayed(self, v)
@@ -709,9 +737,10 @@ class Interp:
         try:
             return getattr(v, name)
         except AttributeError:
-            if (type(v).__module__ or "").startswith("vt."):
-                # a library entry point outside the modelled subset is a limit of the checker, not behaviour of the code
-                raise ModelError("library entry point not modelled: %s.%s" % (type(v).__name__, name))
+            if not isinstance(v, (int, float, str, bytes, tuple, list, dict, set, frozenset, type(None), bool, range)):
+                # an attribute missing on a MODEL object (library namespace, ufunc stand-in, symbolic list, ...) is a limit of
+                # the checker, not behaviour of the code; only plain Python values raise AttributeError for real
+                raise ModelError("library entry point not modelled: %s.%s" % (getattr(v, "__qualname__", None) or type(v).__name__, name))
             raise PyRaise("AttributeError", "%s has no attribute %s" % (type(v).__name__, name))
 
     def setattr(self, v, name, val):
@@ -813,6 +842,8 @@ class Interp:
         except TypeError as e:
             if isinstance(l, (Cond,)) or isinstance(r, Cond):
                 raise Unsupported("arithmetic on conditions")
+            if not (_plain(l) and _plain(r)):
+                raise Unsupported("operator %s on %s and %s" % (op.__name__, type(l).__name__, type(r).__name__))
             raise PyRaise("TypeError", str(e))
         except ZeroDivisionError:
             raise PyRaise("ZeroDivisionError", "division by zero")
@@ -867,6 +898,8 @@ class Interp:
         try:
             return fn(l, r)
         except TypeError as e:
+            if not (_plain(l) and _plain(r)):
+                raise Unsupported("comparison %s of %s and %s" % (name, type(l).__name__, type(r).__name__))
             raise PyRaise("TypeError", str(e))
 
     def lnot(self, v):
@@ -892,6 +925,10 @@ class Interp:
         try:
             return env.lookup(n.id)
         except KeyError:
+            import builtins as _b
+            if hasattr(_b, n.id):
+                # a Python builtin the interpreter has no model of: a limit of the checker, not a NameError of the code
+                raise Unsupported("builtin %s" % n.id)
             raise PyRaise("NameError", "name '%s' is not defined" % n.id)
 
     def ev_Tuple(self, n, env):
@@ -1104,7 +1141,19 @@ class Interp:
             m_ = it.maskfn(k)
             if isinstance(m_, Poly) and m_ == ONE:
                 return SRange(0, it.full)         # every position selected
-            raise Unsupported("iteration over a proper index selection")
+            mc = C(m_)
+            if mc.const() is True:
+                return SRange(0, it.full)
+            if mc.const() is False:
+                return SRange(0, ZERO)
+            if T.symname(k) not in mc.syms and not mc.hasbv:
+                # the same condition c for every position (all labels equal): all positions when c holds, none otherwise
+                return SList(T.mk_ind(mc) * P(it.full), lambda i: P(i))
+            # a proper selection: the loop visits position i iff mask(i) (loops.symbolic_for, guarded rules)
+            r = SRange(0, it.full)
+            mf = it.maskfn
+            r.guard = lambda i: C(mf(i))
+            return r
         if hasattr(it, "as_slist"):
             return it.as_slist()
         if isinstance(it, Obj) and it.cls.find("methods", "__iter__", self.classes) is None:
@@ -1690,6 +1739,16 @@ class ToDelayed:
 
     def ravel(self):
         return self
+
+    flatten = ravel            # same row-major order (a copy of the object array of Delayed blocks)
+
+    def reshape(self, *shape):
+        if len(shape) == 1 and (shape[0] == -1 or shape[0] == (-1,)):
+            return self
+        raise Unsupported("reshape of the block grid")
+
+    def as_slist(self):        # list(grid.ravel()) / iteration over the flattened grid
+        return self.tolist()
 
     def tolist(self):
         N.used("dask.Array.to_delayed().ravel().tolist()")
